@@ -1,0 +1,7 @@
+//go:build !verif
+
+package comet
+
+// verifHNSWLevelOverride never overrides unless built with the tag "verif"
+// (see verif_hooks_hnsw_on.go).
+func verifHNSWLevelOverride(idx *HNSWIndex) (int, bool) { return 0, false }
